@@ -72,6 +72,9 @@ def jobs(tier):
     # two variables whose domains share a value at different positions ([0,1] and [1,2])
     out.append({"name": "pair-shifted-domains", "spec": spec("pair", "min", domain_values={"y": [1, 2]}),
                 "agents": 1})
+    # str values that differ only by letter case
+    out.append({"name": "pair-case-domain", "spec": spec("pair", "min", domain_kind="str", domain_values={"x": ["a", "A"]}),
+                "agents": 1})
     out.append({"name": "agents-only", "spec": spec("unary", "min"), "agents": 2, "agents_focus": True})
     # loading of a hand-written agents section: global / per-agent default hosting costs, specific costs, key order,
     # default route and symmetric routes (forms that dcop_yaml never emits itself)
@@ -188,6 +191,8 @@ def run(eng, p):
     kind = sp.get("domain_kind", "int")
     n0 = sp["vars"][first_var]
     vals0 = list(range(n0)) if kind == "int" else ["v%d" % i for i in range(n0)]
+    if sp.get("domain_values", {}).get(first_var):
+        vals0 = list(sp["domain_values"][first_var])
     if init_kind == "first":
         sp["initial"] = {first_var: vals0[0]}
     elif init_kind == "other":
